@@ -65,6 +65,8 @@ theorem phase_order_phases (s : State) (pn : PN) (s' : State) (h : setPhaseNode 
   · exact ⟨_, h, Or.inr (Or.inl rfl)⟩
   · exact ⟨_, h, Or.inr (Or.inr rfl)⟩
 
+theorem succPhase_le : ∀ p : Nat, p ≤ 4 → succPhase p ≤ 4 := by decide
+
 /-- the stored phase is always one of the five phases. -/
 theorem phase_stays_in_range (s : State) (pn : PN) (s' : State) (h : setPhaseNode s pn = some s') (hr : pn.phase ≤ 4) :
     ∃ pn', s'.pn = some pn' ∧ pn'.phase ≤ 4 := by
@@ -72,10 +74,7 @@ theorem phase_stays_in_range (s : State) (pn : PN) (s' : State) (h : setPhaseNod
   refine ⟨pn', hp, ?_⟩
   rcases hc with h | h | h
   · rw [h]; exact hr
-  · rw [h]; unfold succPhase
-    have hr' : (pn.phase : Nat) ≤ 4 := hr
-    show (if (pn.phase : Nat) ≥ 4 then 0 else (pn.phase : Nat) + 1) ≤ 4
-    split <;> omega
+  · rw [h]; exact succPhase_le pn.phase hr
   · rw [h]; decide
 
 theorem adjustViewChange_pn (s s' : State) (h : adjustViewChange s = some s') : s'.pn = s.pn := by
